@@ -176,7 +176,8 @@ def kview_sess(line, case):
     """W sessions: results + sink summaries; R sessions: results (+ consumption when sequential)"""
     parts = [x.strip() for x in line.split(" ; ")]
     if case.startswith("R "):
-        return " ; ".join(parts[:2]) if case.split(" ")[1] == "1" else parts[0]
+        # how much of the source was consumed is defined for sequential decoding only (a concurrent Reader reads ahead)
+        return " ; ".join(parts[:2]) if case.split(" ")[1] == "1" and "A:conc=" not in case and ",conc=" not in case else parts[0]
     return " ; ".join(parts[:2])
 
 def nontrivial_sess(c, il):
@@ -396,8 +397,11 @@ PROPS = {
     "C19": dict(runs=[HDR_FAM], theorems=T_C19, exhaustive_thorough=True),
     "C12": dict(runs=[dict(DEC_ASM, judge=j_c12), dict(DEC_GO, judge=j_c12)], extra=[x_c12],
                 theorems=T_C12 + T("C04go", "c04_go_partial") + T("C03asm", "c04_asm_partial")),
-    "C13": dict(runs=[dict(XXH, judge=j_c13), FW("fwck", judge=j_c09), HDR_FAM], extra=[x_c13_4g],
+    "C13": dict(runs=[dict(XXH, judge=j_c13), FW("fwck", judge=j_c09), HDR_FAM,
+                      FR("frck", judge=j_notes(r"EXPECTED-\S+|WRONG-CONTENT|TRUNC-ACCEPTED|NOT-PREFIX", "a wrong header / block / content checksum is not reported as such", "each checksum is verified against XXH32 of the bytes the format designates"))],
+                extra=[x_c13_4g],
                 theorems=T("C13", "oneshot", "stream", "stream_reset") + T("C19", "c19_accept_iff", "c19_spec") + T("C09", "c09_writer")),
-    "C14": dict(runs=[dict(CMP, judge=j_c14b), FW("conc", judge=j_c08, env={"VERIF_SCHED": "4"}), FW("fw", judge=j_c02w, env={"VERIF_SCHED": "5"})],
+    "C14": dict(runs=[dict(CMP, judge=j_c14b), FW("conc", judge=j_c08, env={"VERIF_SCHED": "4"}), FW("fw", judge=j_c02w, env={"VERIF_SCHED": "5"}),
+                      FW("fwlife", judge=j_c17w)],   # the output is a function of options and data, whatever the object did before
                 extra=[x_c14_groups], theorems=T_C14 + T("C08", "W.order_final")),
 }
